@@ -110,6 +110,37 @@ pub struct CAlloc { pub led: Ledger }
 impl CAlloc {
     pub fn new() -> (CAlloc, Ledger) { let l = Ledger::new(); (CAlloc { led: l.clone() }, l) }
 }
+/// Markers for the skeleton lines (`ledger sk`): `encode_data` records (cfg(brotli_verif), thread-local) the points
+/// 0 = entry, 1 = behind the backward-reference search, 2 = just before `WriteMetaBlockInternal`, 3 = exit.
+/// The counting allocator drains that log at every event, so a marker ('B', `bid` = point) sits in the event
+/// log exactly between the allocator events that happened before and after it.
+fn drain_book(g: &mut Inner) {
+    if !g.log_events { return; }
+    for b in brotli::enc::encode::verif_stream_hook::take_book() {
+        let id = g.id;
+        g.events.push(Ev { kind: 'B', via: id, origin: id, bid: b.point as u64, ty: "", len: 0, ptr: 0 });
+    }
+}
+impl Ledger {
+    pub fn flush_book(&self) { drain_book(&mut self.0.lock().unwrap()); }
+}
+/// `brotli::enc::histogram::HistogramLiteral` -> `HistogramLiteral`, `…::Command<…>` -> `Command`
+pub fn sktag(ty: &str) -> &str {
+    let base = ty.split('<').next().unwrap_or(ty);
+    base.rsplit("::").next().unwrap_or(base)
+}
+/// the allocator events of every `WriteMetaBlockInternal` activation (between markers 2 and 3) in `evs`
+pub fn wmbi_words(evs: &[Ev]) -> Vec<Vec<String>> {
+    let mut out = vec![];
+    let mut cur: Option<Vec<String>> = None;
+    for e in evs {
+        match e.kind {
+            'B' => { if e.bid == 2 { cur = Some(vec![]); } else if let Some(w) = cur.take() { if e.bid == 3 { out.push(w); } } }
+            k => { if let Some(w) = cur.as_mut() { w.push(format!("{}:{}", k, sktag(e.ty))); } }
+        }
+    }
+    out
+}
 pub struct CBlock<T> {
     data: Box<[T]>,
     origin: Option<Ledger>,
@@ -139,6 +170,7 @@ impl<T: Clone + Default> Allocator<T> for CAlloc {
         if len == 0 { return CBlock::default(); }
         let data = vec![T::default(); len].into_boxed_slice();
         let mut g = self.led.0.lock().unwrap();
+        drain_book(&mut g);
         let bid = g.next_bid;
         g.next_bid += 1;
         let ptr = data.as_ptr() as usize;
@@ -158,6 +190,7 @@ impl<T: Clone + Default> Allocator<T> for CAlloc {
         let my = self.led.id();
         let same = Arc::ptr_eq(&o.0, &self.led.0);
         let mut g = o.0.lock().unwrap();
+        if same { drain_book(&mut g); }
         let oid = g.id;
         if let Some(blk) = g.live.remove(&b.bid) {
             g.bytes_live -= blk.len * blk.esz;
@@ -478,9 +511,9 @@ pub trait Inst {
 fn op_of(op: u32) -> BrotliEncoderOperation {
     match op { 0 => BrotliEncoderOperation::BROTLI_OPERATION_PROCESS, 1 => BrotliEncoderOperation::BROTLI_OPERATION_FLUSH, 2 => BrotliEncoderOperation::BROTLI_OPERATION_FINISH, _ => BrotliEncoderOperation::BROTLI_OPERATION_EMIT_METADATA }
 }
-pub struct RustInst { pub s: BrotliEncoderStateStruct<CAlloc>, pub led: Ledger, pub ext: UnionHasher<CAlloc>, ev0: usize, pub ir_calls: u64, pub cq: Vec<(String, String)>, pub cq_unpaired: u64 }
+pub struct RustInst { pub s: BrotliEncoderStateStruct<CAlloc>, pub led: Ledger, pub ext: UnionHasher<CAlloc>, ev0: usize, pub ir_calls: u64, pub cq: Vec<(String, String)>, pub cq_unpaired: u64, pub sk: Vec<(String, String)>, pub sk_seen: u64, pub log_mb: bool }
 impl RustInst {
-    pub fn new() -> RustInst { let (a, led) = CAlloc::new(); RustInst { s: BrotliEncoderStateStruct::new(a), led, ext: UnionHasher::Uninit, ev0: 0, ir_calls: 0, cq: vec![], cq_unpaired: 0 } }
+    pub fn new() -> RustInst { let (a, led) = CAlloc::new(); RustInst { s: BrotliEncoderStateStruct::new(a), led, ext: UnionHasher::Uninit, ev0: 0, ir_calls: 0, cq: vec![], cq_unpaired: 0, sk: vec![], sk_seen: 0, log_mb: false } }
     /// a pre-computed hasher made by the caller with the instance's own allocator (what CompressMulti does)
     pub fn make_ext_hasher(&mut self) {
         let mut p = self.s.params.clone();
@@ -504,6 +537,17 @@ impl Inst for RustInst {
         let e0 = self.led.events_len();
         let r = self.s.compress_stream(op_of(op), &mut ai, input, &mut io, &mut ao, &mut out, &mut oo, &mut None, &mut |_a, b, _c, _d| { ir += 1; pushes.push(b.len()); });
         self.ir_calls += ir;
+        // skeleton lines: the events of each WriteMetaBlockInternal activation of this call
+        self.led.flush_book();
+        {
+            let q = self.s.params.quality;
+            for w in wmbi_words(&self.led.events_from(e0)) {
+                self.sk_seen += 1;
+                if w.len() <= 600 && (self.sk.len() < 4 || (self.sk.len() < 8 && self.sk_seen % 7 == 0)) {
+                    self.sk.push((format!("ledger sk WriteMetaBlockInternal q{} log{} {}", q, self.log_mb as u32, w.join(" ")).trim_end().to_string(), "ok".to_string()));
+                }
+            }
+        }
         if ir > 0 {
             // the IR command queue of each logged meta-block: first allocation, doublings, release
             let mut groups: Vec<(Vec<usize>, u64, u64)> = vec![];
@@ -758,6 +802,9 @@ fn rust_instance_case(seed: u64, thorough: bool) -> (Vec<(String, String)>, Repo
     let mut lines = vec![];
     let res = std::panic::catch_unwind(std::panic::AssertUnwindSafe(|| {
         let mut inst = RustInst::new();
+        inst.log_mb = cfg.log_mb;
+        brotli::enc::encode::verif_stream_hook::set_book(true); // the bookkeeping log is off by default
+        drop(brotli::enc::encode::verif_stream_hook::take_book()); // markers of an earlier case on this thread
         let mut hook = |i: &mut RustInst, what: &str, d: &[u8]| { if what == "mk" { i.make_ext_hasher(); } else { i.set_dict_with_ext(d); } };
         let (mut t, mut sc, _data) = run_history(&mut inst, "rust", &cfg, &mut r, thorough, &mut rep, &case, Some(&mut hook));
         inst.destroy();
@@ -765,8 +812,13 @@ fn rust_instance_case(seed: u64, thorough: bool) -> (Vec<(String, String)>, Repo
         record(&mut t, "cl", &o, &mut sc, &mut rep, &case, None);
         let led = inst.led.clone();
         let ir = inst.ir_calls;
-        let cq = std::mem::take(&mut inst.cq);
+        let mut cq = std::mem::take(&mut inst.cq);
+        let skn = inst.sk_seen;
+        cq.extend(std::mem::take(&mut inst.sk));
+        if skn > 0 { rep.add("inst.rust.sk_wmbi_activations", skn); }
         let cqu = inst.cq_unpaired;
+        brotli::enc::encode::verif_stream_hook::set_book(false);
+        drop(brotli::enc::encode::verif_stream_hook::take_book());
         drop(inst);
         let (a, f, x, d) = led.counts();
         if led.live_count() != 0 || d != 0 {
@@ -787,7 +839,7 @@ fn rust_instance_case(seed: u64, thorough: bool) -> (Vec<(String, String)>, Repo
         count_growth(&sc, &mut rep, "inst.rust");
         (format!("ledger inst rust {} {}", cfg.q, sc.toks.join(" ")), sc.ans.join(" "), cq, cqu)
     }));
-    match res { Ok((a, b, cq, cqu)) => { lines.push((a, b)); if cqu > 0 { rep.add("inst.rust.ir_queue_unpaired", cqu); } for l in cq { if l.1.contains('+') { rep.count("inst.rust.ir_queue_grew"); } rep.count("inst.rust.ir_queue_lines"); lines.push(l); } }, Err(_) => { rep.count("inst.rust.panic"); rep.violation("ledger:panic", "panic inside a streaming history (blocks held by the instance are lost)", case) } }
+    match res { Ok((a, b, cq, cqu)) => { lines.push((a, b)); if cqu > 0 { rep.add("inst.rust.ir_queue_unpaired", cqu); } for l in cq { if l.0.starts_with("ledger sk ") { rep.count("inst.rust.sk_lines"); if l.0.split(' ').count() > 6 { rep.count("inst.rust.sk_lines_with_events"); } } else { if l.1.contains('+') { rep.count("inst.rust.ir_queue_grew"); } rep.count("inst.rust.ir_queue_lines"); } lines.push(l); } }, Err(_) => { rep.count("inst.rust.panic"); rep.violation("ledger:panic", "panic inside a streaming history (blocks held by the instance are lost)", case) } }
     (lines, rep)
 }
 
@@ -877,7 +929,7 @@ fn log_line(leds: &[Ledger]) -> Option<(String, String)> {
     for l in leds {
         let id = l.id();
         for e in l.events_from(0) {
-            if e.origin != id { continue; }
+            if e.origin != id || e.kind == 'B' { continue; }
             match e.kind { 'A' => { toks.push(format!("A{}.{}", norm(e.origin), e.bid)); out += 1; } 'F' => { toks.push(format!("F{}.{}.{}", norm(e.via), norm(e.origin), e.bid)); out -= 1; } 'X' => { toks.push(format!("F{}.{}.{}", norm(e.via), norm(e.origin), e.bid)); foreign += 1; out -= 1; } _ => { toks.push(format!("D{}.{}", norm(e.origin), e.bid)); dropped += 1; } }
         }
     }
